@@ -53,6 +53,7 @@ func (x *Exec) verifyFunction(f *ssa.Function) (rep FuncReport) {
 	}()
 	st := x.baseState()
 	st.entryNext = st.next
+	st.assume(eq(entryNextSym(), st.next))
 	x.curFn = f
 	var args []Val
 	for _, p := range f.Params {
@@ -97,6 +98,11 @@ func (x *Exec) assumeAllocated(st *State, t types.Type, v T) {
 	case *types.Interface:
 		// payload refs of pointer-typed dynamic values are allocated
 		st.assume(app(SBool, "<", ifacePl(v), st.next))
+	case *types.Struct:
+		u := t.Underlying().(*types.Struct)
+		for i := 0; i < u.NumFields(); i++ {
+			x.assumeAllocated(st, u.Field(i).Type(), structField(t, v, i))
+		}
 	}
 }
 
@@ -181,7 +187,7 @@ func solveOne(c *Check, o dischargeOpts) *Instance {
 	for _, att := range []struct {
 		sp    solverSpec
 		level int
-	}{{solvers[0], 0}, {solvers[0], 1}, {solvers[0], 2}, {solvers[1], 0}, {solvers[1], 2}} {
+	}{{solvers[0], 0}, {solvers[0], 10}, {solvers[0], 1}, {solvers[0], 11}, {solvers[0], 2}, {solvers[1], 0}, {solvers[1], 2}} {
 		rf := runSolverLevel(att.sp, c, quick, o.seed, att.level)
 		rf.Solver += fmt.Sprintf("/rel%d", att.level)
 		inst.Tried = append(inst.Tried, rf)
